@@ -1,6 +1,53 @@
 /-
   Sipsp.Proofs.UriCmpLink — property C15: the side conditions of the comparison laws (UriCmpLaws) are established
-  by the parsers, so that the laws hold for what the entry points accept.
+  by the parsers, so that the laws hold for what the entry points accept; the laws restated for raw byte strings.
+  Everything is for ALL inputs the statements quantify over; `≤ 65535` is the documented size limit of a buffer.
+
+  (1) the list parsers establish the list hypotheses of the laws
+      * `parseAllURIParams_ucl` (new list of ANY capacity, any flags, any verdict, any offset inside the buffer): no
+        panic; every stored parameter lies inside the buffer (`ParamIn`) and its recorded type is the classification
+        of its name (`UclCls`); the `types` mask is the set of types stored (`TypesOk`) unless parameters were
+        dropped for lack of room.  Loop invariant `UclPlInv` (`uriParamsLoop_uclInv`, `parseAllURIParams_uclInv`:
+        kept by every call on any list satisfying it).  `parseAllURIHdrs_ucl`: every stored header lies inside the
+        buffer (`HdrIn`).
+      * `ucl_pmatch_iff`, `ucl_paramsNoDup_iff`, `ucl_hdrsNoDup_iff`, `ucl_paramsNoDup_text`, `ucl_hdrsNoDup_text`: for
+        parsed lists the side condition `ParamsNoDup` / `HdrsNoDup` of the laws says exactly that no two NAMES (byte
+        strings of the text, `uclParamNames` / `uclHdrNames`) are equal up to ASCII letter case (`UclNoDupNames`).
+      * `ucl_paramsWf`, `ucl_hdrsWf`: every parameter / header string (≤ 65535 bytes) without duplicate names
+        satisfies `ParamsWf` / `HdrsWf`; the no-panic and inside-the-string parts hold for EVERY string.
+  (2) raw URIs (`UclNoDup raw`: the parameter names and the header names of the text are duplicate-free;
+      `UclListsOk raw`: ParseAllURIParams / ParseAllURIHdrs accept the parameter / header string)
+      * `ucl_parse_get`: every component of an accepted URI reads back as the slice `[offs, offs+len)`;
+        `ucl_uriWf`, `ucl_uriGood`: accepted + `UclNoDup` (+ `UclListsOk`) ⇒ `URIWf` (`URIGood`).
+      * REFLEXIVITY `uriParseCmp_refl_raw`, `uriCmp_refl_parsed`: accepted, `UclListsOk`, `UclNoDup` ⇒ equal to itself
+        under every flag value, no error, the parsed URI handed back twice.
+      * SYMMETRY `uriParseCmp_symm_raw` (ANY two byte strings ≤ 65535, accepted or not; `UclNoDup` for the accepted
+        ones), `uriParseCmp_symm_full` (complete results, parsed URIs swapped), `uriCmp_symm_parsed`.
+      * PRESENCE `uriParamsEq_presence_raw`, `uriParseCmp_presence_raw`: a verdict "equal" (parameters not skipped)
+        means each of user / ttl / method / maddr (any letter case) is a parameter NAME of both texts or of
+        neither (at most 100 parameters each).
+      (flag monotonicity needs no side condition: `uriParseCmp_mono` in UriCmpLaws.)
+  (3) LETTER CASE, unconditional (no hypothesis on duplicates, well-formedness or acceptance):
+      * `parseURI_case`: ParseURI returns the same result on strings that differ only in letter case, anywhere;
+        `parseAllURIParams_case`, `parseAllURIHdrs_case`, `parseTokenParam_case`, `skipLWS_case`, `skipQuoted_case`:
+        so do the list parsers (positions AND recorded types);
+      * `uriParamsLstEq_case`, `uriHdrsLstEq_case`, `uriParamsEq_case`, `uriHdrsEq_case`: the list comparisons read
+        their buffers only up to letter case (names and values);
+      * `uriCmp_case`: URICmp, any URI objects, given the same user / password bytes;
+      * `uriParseCmp_case` (`UclCaseVariant`: same string up to letter case, user and password untouched) and the
+        special case `uriParseCmp_host_case` (`UclHostCaseVariant`: only host bytes re-cased): the COMPLETE result of
+        URIParseCmp is unchanged, for any two byte strings ≤ 65535.
+  Tests at the end: non-vacuity of every hypothesis; `ucl_refl_needs_listsOk` (ParseURI accepts `sip:a@b;<` but the
+  URI is NOT equal to itself: the "lists well formed" hypothesis of reflexivity is necessary), `ucl_needs_nodup`.
+
+  NOT proved here:
+    * an independent (parser-free) description of the name lists `uclParamNames` / `uclHdrNames`: they are the names
+      ParseAllURIParams / ParseAllURIHdrs report for the text (for texts of the grammar `GList` of ParamSpec these
+      are the names as written: `GList.paramSeq`); duplicate-freedom is stated on these byte strings;
+    * order invariance for raw strings (the laws `uriParamsLstEq_perm` / `uriCmp_congr` still take `ParamsSim` /
+      `URISame` as hypotheses about the two parsed lists);
+    * the presence rule beyond 100 parameters (the mask then also covers dropped parameters);
+    * transitivity (false).
 -/
 import Sipsp.Proofs.UriCmpLaws
 import Sipsp.Proofs.SafeRest
@@ -866,7 +913,7 @@ theorem ucl_lower_char_nat : ∀ a, a < 256 →
     (∀ k ∈ [(0 : UInt8), 9, 10, 13, 32, 34, 38, 44, 59, 61, 63, 92, 127],
       (lowerB (UInt8.ofNat a) == k) = (UInt8.ofNat a == k)) ∧
     (decide (lowerB (UInt8.ofNat a) < 33) = decide (UInt8.ofNat a < 33)) ∧
-    (∀ u, docAllowed (lowerB (UInt8.ofNat a)) u = docAllowed (UInt8.ofNat a) u) := by
+    (∀ u, tokAllowedB (lowerB (UInt8.ofNat a)) u = tokAllowedB (UInt8.ofNat a) u) := by
   decide +kernel
 
 /-- the byte tests of the scanners do not tell a letter from its other-case form -/
@@ -882,7 +929,7 @@ theorem ucl_lower_class (c : UInt8) : UclSameClass (lowerB c) c := by
   have := ucl_lower_char_nat c.toNat (UInt8.toNat_lt c)
   simp only [UInt8.ofNat_toNat] at this
   obtain ⟨h1, h2, h3, h4, h5, h6⟩ := this
-  exact ⟨h1, h2, h3, h4, h5, fun flags => by rw [tokAllowedChar_doc, tokAllowedChar_doc, h6]⟩
+  exact ⟨h1, h2, h3, h4, h5, fun flags => h6 (hasFlag flags POptTokURIParamF)⟩
 
 theorem ucl_sameClass {c d : UInt8} (h : lowerB c = lowerB d) : UclSameClass c d := by
   have hc := ucl_lower_class c
@@ -1323,6 +1370,135 @@ theorem uriParseCmp_case (raw1 raw1' raw2 raw2' : Buf) (f : Nat) (hfit1 : raw1.s
   · have b1 : ((parseURI raw1 {}).1 != UErr.none) = true := by simpa using c1
     simp only [b1, ↓reduceIte]
 
+/-! ### (2c) the presence rule on parameter strings -/
+
+theorem ucl_ofLower_eq_iff (s : List UInt8) :
+    (uriParamOfLower s = URIParamUserF ↔ s = sUser) ∧ (uriParamOfLower s = URIParamTTLF ↔ s = sTtl) ∧
+    (uriParamOfLower s = URIParamMethodF ↔ s = sMethod) ∧ (uriParamOfLower s = URIParamMaddrF ↔ s = sMaddr) := by
+  refine ⟨⟨fun h => ?_, fun h => by rw [h]; decide⟩, ⟨fun h => ?_, fun h => by rw [h]; decide⟩,
+    ⟨fun h => ?_, fun h => by rw [h]; decide⟩, ⟨fun h => ?_, fun h => by rw [h]; decide⟩⟩ <;>
+  rcases ucl_ofLower_cases s _ rfl with ⟨a, ta⟩ | ⟨a, ta⟩ | ⟨a, ta⟩ | ⟨a, ta⟩ | ⟨a, ta⟩ | ⟨a, ta⟩ | ta <;>
+  first
+    | exact a
+    | (rw [ta] at h; exact absurd h (by decide))
+
+/-- the parameter string has a parameter whose name is `s` up to letter case (`s` a lower-case name) -/
+def UclHasParam (pb : Buf) (s : List UInt8) : Prop := ∃ nm ∈ uclParamNames pb, lowerL nm.toList = s
+
+instance (pb : Buf) (s : List UInt8) : Decidable (UclHasParam pb s) :=
+  inferInstanceAs (Decidable (∃ nm ∈ uclParamNames pb, lowerL nm.toList = s))
+
+theorem ucl_hasType_iff (pb : Buf) (hfit : pb.size ≤ 65535) (x : Nat) (s : List UInt8)
+    (hxs : ∀ s', uriParamOfLower s' = x ↔ s' = s) :
+    (∃ p ∈ (uriParamsParse pb 0).2.plist, p.t = x) ↔ UclHasParam pb s := by
+  have hf := (ucl_paramsParse_facts pb 0 hfit (Nat.zero_le _)).2
+  unfold UclHasParam uclParamNames
+  constructor
+  · rintro ⟨p, hp, ht⟩
+    obtain ⟨_, ⟨nm, hnm, hcl⟩, hn⟩ := hf p hp
+    rw [hn] at hnm; cases hnm
+    refine ⟨_, List.mem_map.2 ⟨p, hp, rfl⟩, ?_⟩
+    rw [hcl, uriParamResolve_lower] at ht
+    exact (hxs _).1 ht
+  · rintro ⟨nm, hnm, hl⟩
+    obtain ⟨p, hp, rfl⟩ := List.mem_map.1 hnm
+    obtain ⟨_, ⟨nm', hnm', hcl⟩, hn⟩ := hf p hp
+    rw [hn] at hnm'; cases hnm'
+    refine ⟨p, hp, ?_⟩
+    rw [hcl, uriParamResolve_lower]
+    exact (hxs _).2 hl
+
+/-- **PRESENCE RULE on parameter strings**: if URIParamsEq says "equal" for two parameter strings (at most 65,535
+    bytes, at most 100 parameters each), then each of `user`, `ttl`, `method`, `maddr` (in any letter case) is a
+    parameter name of both strings or of neither -/
+theorem uriParamsEq_presence_raw (pb1 pb2 : Buf) (hfit1 : pb1.size ≤ 65535) (hfit2 : pb2.size ≤ 65535)
+    (hm1 : (uriParamsParse pb1 0).2.more = false) (hm2 : (uriParamsParse pb2 0).2.more = false) {e : Err}
+    (h : uriParamsEq pb1 0 pb2 0 = some (true, e)) :
+    ∀ s ∈ [sUser, sTtl, sMethod, sMaddr], (UclHasParam pb1 s ↔ UclHasParam pb2 s) := by
+  have t1 : TypesOk (uriParamsParse pb1 0).2 :=
+    (parseAllURIParams_ucl pb1 0 100 (POptTokURIParamF ||| POptInputEndF) hfit1 (Nat.zero_le _)).2.2 hm1
+  have t2 : TypesOk (uriParamsParse pb2 0).2 :=
+    (parseAllURIParams_ucl pb2 0 100 (POptTokURIParamF ||| POptInputEndF) hfit2 (Nat.zero_le _)).2.2 hm2
+  have hl : uriParamsLstEq (uriParamsParse pb1 0).2 pb1 (uriParamsParse pb2 0).2 pb2 = some true := by
+    rw [uriParamsEq_eq] at h
+    by_cases c1 : (uriParamsParse pb1 0).2.pnc = true
+    · rw [if_pos c1] at h; cases h
+    rw [if_neg c1] at h
+    by_cases c2 : (!errOkOrEOH (uriParamsParse pb1 0).1) = true
+    · rw [if_pos c2] at h; cases h
+    rw [if_neg c2] at h
+    by_cases c3 : (uriParamsParse pb2 0).2.pnc = true
+    · rw [if_pos c3] at h; cases h
+    rw [if_neg c3] at h
+    by_cases c4 : (!errOkOrEOH (uriParamsParse pb2 0).1) = true
+    · rw [if_pos c4] at h; cases h
+    rw [if_neg c4] at h
+    rcases hr : uriParamsLstEq (uriParamsParse pb1 0).2 pb1 (uriParamsParse pb2 0).2 pb2 with _ | r
+    · rw [hr] at h; cases h
+    · rw [hr] at h
+      simp only [Option.map_some, Option.some.injEq, Prod.mk.injEq] at h
+      rw [h.1]
+  have hp := uriParamsLstEq_true_presence _ pb1 _ pb2 hl t1 t2
+  have k := ucl_ofLower_eq_iff
+  intro s hs
+  simp only [List.mem_cons, List.not_mem_nil, or_false] at hs
+  rcases hs with rfl | rfl | rfl | rfl
+  · rw [← ucl_hasType_iff pb1 hfit1 URIParamUserF sUser (fun s' => (k s').1),
+      ← ucl_hasType_iff pb2 hfit2 URIParamUserF sUser (fun s' => (k s').1)]
+    exact hp _ (by simp)
+  · rw [← ucl_hasType_iff pb1 hfit1 URIParamTTLF sTtl (fun s' => (k s').2.1),
+      ← ucl_hasType_iff pb2 hfit2 URIParamTTLF sTtl (fun s' => (k s').2.1)]
+    exact hp _ (by simp)
+  · rw [← ucl_hasType_iff pb1 hfit1 URIParamMethodF sMethod (fun s' => (k s').2.2.1),
+      ← ucl_hasType_iff pb2 hfit2 URIParamMethodF sMethod (fun s' => (k s').2.2.1)]
+    exact hp _ (by simp)
+  · rw [← ucl_hasType_iff pb1 hfit1 URIParamMaddrF sMaddr (fun s' => (k s').2.2.2),
+      ← ucl_hasType_iff pb2 hfit2 URIParamMaddrF sMaddr (fun s' => (k s').2.2.2)]
+    exact hp _ (by simp)
+
+/-- … and for raw URIs: a verdict "equal" of URIParseCmp without URICmpSkipParams means that each of `user`, `ttl`,
+    `method`, `maddr` is a parameter name of both URIs or of neither (at most 100 parameters each) -/
+theorem uriParseCmp_presence_raw (raw1 raw2 : Buf) (f : Nat) (hfit1 : raw1.size ≤ 65535) (hfit2 : raw2.size ≤ 65535)
+    (hm1 : (uriParamsParse (uclParamsText raw1) 0).2.more = false)
+    (hm2 : (uriParamsParse (uclParamsText raw2) 0).2.more = false)
+    (hf : hasFlag f URICmpSkipParams = false) {e : UErr} {i : Nat} {r1 r2 : Option PsipURI}
+    (h : uriParseCmp raw1 raw2 f = some (true, e, i, r1, r2)) :
+    ∀ s ∈ [sUser, sTtl, sMethod, sMaddr],
+      (UclHasParam (uclParamsText raw1) s ↔ UclHasParam (uclParamsText raw2) s) := by
+  have p1 := (parseURI_ok raw1 hfit1).2.1
+  have p2 := (parseURI_ok raw2 hfit2).2.1
+  rw [uriParseCmp_eq] at h
+  simp only [p1, p2, Bool.false_eq_true, ↓reduceIte] at h
+  by_cases c1 : ((parseURI raw1 {}).1 != UErr.none) = true
+  · rw [if_pos c1] at h; cases h
+  rw [if_neg c1] at h
+  by_cases c2 : ((parseURI raw2 {}).1 != UErr.none) = true
+  · rw [if_pos c2] at h; cases h
+  rw [if_neg c2] at h
+  have a1 : (parseURI raw1 {}).1 = UErr.none := by simpa using c1
+  have a2 : (parseURI raw2 {}).1 = UErr.none := by simpa using c2
+  have hc : uriCmp (parseURI raw1 {}).2.2.1 raw1 (parseURI raw2 {}).2.2.1 raw2 f = some true := by
+    rcases hr : uriCmp (parseURI raw1 {}).2.2.1 raw1 (parseURI raw2 {}).2.2.1 raw2 f with _ | r
+    · rw [hr] at h; cases h
+    · rw [hr] at h
+      simp only [Option.map_some, Option.some.injEq, Prod.mk.injEq] at h
+      rw [h.1]
+  have hpp := ((uriCmp_true_iff _ _ _ _ _).1 hc).2.1
+  rcases hpp with hpp | hpp
+  · rw [hf] at hpp; cases hpp
+  · unfold uriCmpParamsPart at hpp
+    rw [ucl_parse_get raw1 hfit1 a1 _ (by simp), ucl_parse_get raw2 hfit2 a2 _ (by simp)] at hpp
+    simp only at hpp
+    rcases hq : uriParamsEq (uclSeg raw1 (parseURI raw1 {}).2.2.1.params) 0
+        (uclSeg raw2 (parseURI raw2 {}).2.2.1.params) 0 with _ | ⟨r, e'⟩
+    · rw [hq] at hpp; cases hpp
+    · rw [hq] at hpp
+      simp only [Option.map_some, Option.some.injEq] at hpp
+      subst hpp
+      exact uriParamsEq_presence_raw _ _
+        (by unfold uclParamsText; have := uclSeg_size_le raw1 (parseURI raw1 {}).2.2.1.params; omega)
+        (by unfold uclParamsText; have := uclSeg_size_le raw2 (parseURI raw2 {}).2.2.1.params; omega) hm1 hm2 hq
+
 /-! ### tests / non-vacuity (closed computations, `decide +kernel`) -/
 
 section UclTests
@@ -1407,6 +1583,12 @@ example : (uriParseCmp "sip:alice:pw@Example.COM:5060;transport=udp;Foo=Bar;lr?a
 example : parseAllURIParams "TRANSPORT=UDP;fOO=bAR;LR".toUTF8.data 0 { params := Array.replicate 4 {} } 0 =
     parseAllURIParams "transport=udp;Foo=Bar;lr".toUTF8.data 0 { params := Array.replicate 4 {} } 0 :=
   parseAllURIParams_case (UclCaseVar.of_caseEq (by decide +kernel)) 0 _ 0
+
+/-- non-vacuity of the hypotheses of `uriParamsEq_presence_raw`, and the theorem applied -/
+example : UclHasParam "Transport=udp;USER=phone".toUTF8.data sUser := by decide +kernel
+example : UclHasParam "x=1;User=Phone".toUTF8.data sUser ↔ UclHasParam "USER=phone;y=2".toUTF8.data sUser :=
+  uriParamsEq_presence_raw "x=1;User=Phone".toUTF8.data "USER=phone;y=2".toUTF8.data (by decide) (by decide)
+    (by decide +kernel) (by decide +kernel) (e := Err.ok) (by decide +kernel) sUser (by simp)
 
 /-- test / non-vacuity of `parseAllURIParams_ucl`: the mask is the set of stored types -/
 example : TypesOk (parseAllURIParams "user=phone;ttl=1;x".toUTF8.data 0 { params := Array.replicate 5 {} } 0).2.2.2 :=
